@@ -13,21 +13,61 @@ def tlc_agg(run, name, module, cfgtext, **kw):
     return res
 
 
-def c03(run):
+AGG = {
+    "C02": dict(invs=["C02_EntriesMatch"], judge=lambda b: not b["dimpl"],
+                quick=[("MC_C02a", 4, 2), ("MC_C02b", 6, 3)], thorough=[("MC_C02a", 6, 3), ("MC_C02b", 8, 3)],
+                sim=[("MC_C02a", 14, 3), ("MC_C02b", 16, 4)],
+                rule="TLC enumerates well-formed programs over two alphabets (a: definitions, set, option, add_test, "
+                     "generic commands incl. compound arguments and a command named generic_command; b: classes, "
+                     "attributes, members, constructors, tests, sections with implementing definitions), each command "
+                     "with/without doccomment; projection compared: kind/name/order of top-level directives, arguments "
+                     "of generic invocations, member names per class"),
+    "C03": dict(invs=["C03_Signatures"], judge=lambda b: True,
+                quick=[("MC_C03", 6, 3)], thorough=[("MC_C03", 8, 3)], sim=[("MC_C03", 18, 4)],
+                rule="TLC enumerates well-formed programs over definitions with 0-2 parameters (strip pattern matching "
+                     "some parameters and some names), cmake_parse_arguments at every position, member/test "
+                     "declarations with implementing definitions (documented or not), ordinary commands; projection "
+                     "compared: the argument of every function directive stemming from a function/macro"),
+    "C09": dict(invs=["C09_Classes"], judge=lambda b: not b["dimpl"],
+                quick=[("MC_C09", 5, 2)], thorough=[("MC_C09", 7, 3)], sim=[("MC_C09", 16, 4)],
+                rule="TLC enumerates class structures (bases, attributes with/without default, members with 0-2 types "
+                     "incl. args, constructors, implementing functions/macros with 1-4 parameters under the member "
+                     "strip pattern, nesting); projection compared: py:class/py:method/py:attribute nesting and order, "
+                     "signatures, param/type fields, macro notes, bases, inner-class lists"),
+    "C11": dict(invs=["C11_Tests"], judge=lambda b: not b["dimpl"],
+                quick=[("MC_C11", 4, 2)], thorough=[("MC_C11", 5, 2)], sim=[("MC_C11", 14, 3)],
+                rule="TLC enumerates ct_add_test/ct_add_section/add_test commands with NAME at several positions, "
+                     "with/without EXPECTFAIL, arguments equal to the name or containing a keyword, sections nested in "
+                     "test functions; projection compared: function directives carrying a CMakeTest/CTest warning"),
+}
+STD_INVS = ["StackRefinesInv", "NoFailure"]
+
+
+def agg_property(run):
+    pid = run.pid
+    spec = AGG[pid]
     q = run.tier == "quick"
-    res = tlc_agg(run, "MC_C03", "MC_C03",
-                  cfg(["C03_Signatures", "StackRefinesInv", "NoFailure"], maxlen=6 if q else 8, maxdepth=3))
-    n = replay(run, "C03", res, run.seed, limit=None if q else 60000)
+    for module, maxlen, maxdepth in spec["quick" if q else "thorough"]:
+        res = tlc_agg(run, "%s(len<=%d,depth<=%d)" % (module, maxlen, maxdepth), module,
+                      cfg(spec["invs"] + STD_INVS, maxlen, maxdepth))
+        replay(run, pid, res, run.seed, judge=spec["judge"], limit=None if q else 80000)
+    # long programs: random behaviours of the same specification (invariants are checked on every state)
+    for module, maxlen, maxdepth in spec["sim"]:
+        res = tlc_agg(run, "%s(simulate,len<=%d)" % (module, maxlen), module,
+                      cfg(spec["invs"] + STD_INVS, maxlen, maxdepth), simulate=150 if q else 2500, depth=3 * maxlen,
+                      seed=run.seed, workers=8, coverage=False)
+        replay(run, pid, res, run.seed + 1, judge=lambda b, j=spec["judge"], m=maxlen: j(b) and len(b["prog"]) > 6,
+               limit=4000 if q else 40000)
+    run.exhaustive = True
     run.assumptions += ["re.sub and str.upper are trusted library functions (their results are inputs of the spec)",
-                        "strip patterns are drawn from {'', '^_p_'}; trigger string is ':keyword'"]
-    return ("TLC enumerates every well-formed program over the MC_C03 alphabet (definitions with 0-2 parameters, "
-            "cmake_parse_arguments, member/test declarations + implementing definitions, ordinary commands; "
-            "each with/without doccomment) up to the length/depth bound, checks C03_Signatures and StackRefines on the "
-            "specification, and every terminal behaviour is concretised and replayed through the real Documenter; "
-            "distinct = distinct abstract programs")
+                        "strip patterns are drawn from {'', '^_p_'}; the kwargs trigger string is ':keyword'",
+                        "the concretiser (abstract program -> CMake text) and the projector (page -> entry views) "
+                        "are trusted; the projector is cross-checked against docutils by check C07"]
+    return spec["rule"] + ("; exhaustive up to the stated length/depth bound, then TLC -simulate for programs up to "
+                           "the longer bound; distinct = distinct (program, flags) pairs replayed through the real Documenter")
 
 
-CHECKS = {"C03": c03}
+CHECKS = {p: agg_property for p in AGG}
 
 
 def replay_file(run, pid, path):
